@@ -967,20 +967,34 @@ class Action:
         if not mat:
             return value
 
-        optional, key, default = mat.groups()
+        # expand each reference with its own variable (or default)
+        undefined = []                  # the first optional variable that isn't defined
 
-        if key in os.environ:
-            return re.sub(varRE, os.environ[key], value)
-        elif default:
-            return re.sub(varRE, default, value)
+        def expand(mat):
+            optional, key, default = mat.groups()
 
-        if optional:
+            if key in os.environ:
+                return os.environ[key]
+            elif default:
+                return default
+
+            if optional:
+                undefined.append(key)
+                raise KeyError(key)
+            else:
+                raise RuntimeError("$%s is not defined; unable to expand %s" % (key, value))
+
+        try:
+            return re.sub(varRE, expand, value)
+        except KeyError:
+            if not undefined:
+                raise
+
             if verbose > 0:
-                print("$%s is not defined; skipping line containing %s" % (key, value), file=utils.stdinfo)
+                print("$%s is not defined; skipping line containing %s" % (undefined[0], value),
+                      file=utils.stdinfo)
 
             return None
-        else:
-            raise RuntimeError("$%s is not defined; unable to expand %s" % (key, value))
 
     #
     # Here are the real execute routines
